@@ -101,7 +101,7 @@ Section RecC.
 
   Lemma leaveC_rec (flt wr : bool) f t0 t1 i dp0 dp stk ri ou hk : (t0 < t1)%N -> (t1 < two64)%N ->
     MC.dstep mc (mk i 0 dp0 (FrC flt false false wr f t0 0 ri dp :: stk) (ri + 1) ou, true :: hk) (MC.Leave t1)
-    = (if wr || (threshold c <? tdelta t1 t0)%N
+    = (if wr || (threshold c <=? tdelta t1 t0)%N
        then mk (if flt then i - 1 else i) 0 dp (if wr then stk else markw stk) ri
                (ou ++ (if wr then [] else pend stk ++ [mflat_rec false ri t0 f]) ++ [mflat_rec true ri t1 f])
        else mk (if flt then i - 1 else i) 0 dp stk ri ou, hk).
@@ -111,7 +111,7 @@ Section RecC.
     assert (Ht1 : (t1 =? 0)%N = false) by lia.
     mstep. cbn -[N.modulo N.add N.sub N.ltb MC.flush_anc]. rewrite Hcl. cbn -[N.modulo N.add N.sub N.ltb MC.flush_anc].
     rewrite Hri.
-    destruct (threshold c <? (t1 + 18446744073709551616 - t0) mod 18446744073709551616)%N eqn:EL;
+    destruct (threshold c <=? (t1 + 18446744073709551616 - t0) mod 18446744073709551616)%N eqn:EL;
       cbn -[N.modulo N.add N.sub N.ltb MC.flush_anc]; unfold MC.record_trace_data; cbn -[MC.flush_anc];
       destruct wr; cbn -[MC.flush_anc]; rewrite ?Ht1;
       try (destruct flt; reflexivity);
@@ -175,7 +175,7 @@ Section RecC.
         destruct (flat_map (sel c true 1) ks) as [|x g'] eqn:Eg.
         * cbn [after]. cbn [MC.exec fold_left]. rewrite (leaveC_rec true false f t0 t1 (i + 1) 1%N dp stk ri ou hk H01 H1).
           unfold keep. cbn [is_nil negb orb]. rewrite Z.add_simpl_r.
-          destruct (threshold c <? tdelta t1 t0)%N; [|reflexivity].
+          destruct (threshold c <=? tdelta t1 t0)%N; [|reflexivity].
           cbn [after flat_map mflat]. unfold mk. rewrite app_nil_r.
           rewrite <- ?app_assoc. reflexivity.
         * cbn [after]. destruct (markw_consC true f t0 ri dp stk) as [M P]. rewrite M, P.
@@ -209,7 +209,7 @@ Section RecC.
              ++ cbn [after]. cbn [MC.exec fold_left].
                 rewrite (leaveC_rec false false f t0 t1 i (dp + 1)%N dp stk ri ou hk H01 H1).
                 unfold keep. cbn [is_nil negb orb].
-                destruct (threshold c <? tdelta t1 t0)%N; [|reflexivity].
+                destruct (threshold c <=? tdelta t1 t0)%N; [|reflexivity].
                 cbn [after flat_map mflat]. unfold mk. rewrite app_nil_r. rewrite <- ?app_assoc. reflexivity.
              ++ cbn [after]. destruct (markw_consC false f t0 ri dp stk) as [M P]. rewrite M, P.
                 cbn [MC.exec fold_left].
